@@ -56,6 +56,8 @@ def sym_templates():
         ('r[i] > 0', lambda r, i: ('bin', '>', ('idx', ('f', r), ('lit', i)), ('lit', 0)), ('idx', ('f', 'R'), ('lit', 'I')), ST.NUMBER),
         ('fx[i] > 0', lambda r, i: ('bin', '>', ('idx', ('f', c('fx')), ('lit', i)), ('lit', 0)), ('idx', ('f', c('fx')), ('lit', 'I')), ST.NUMBER),
         ('ms[i].r > 0', lambda r, i: ('bin', '>', ('fa', ('idx', ('f', c('ms')), ('lit', i)), r), ('lit', 0)), ('fa', ('idx', ('f', c('ms')), ('lit', 'I')), 'R'), ST.NUMBER),
+        ('ms[r].x > 0', lambda r, i: ('bin', '>', ('fa', ('idx', ('f', c('ms')), ('f', r)), c('x')), ('lit', 0)), ('f', 'R'), ST.NUMBER),
+        ('xs[r][i] ...', lambda r, i: ('bin', '>', ('fa', ('idx', ('f', c('ms')), ('idx', ('f', c('fx')), ('f', r))), c('x')), ('lit', 0)), ('f', 'R'), ST.NUMBER),
         ('@A.r > 0', lambda r, i: ('bin', '>', ('fa', ('var', 'A'), r), ('lit', 0)), ('fa', ('var', 'A'), 'R'), ST.NUMBER),
         ('x in r', lambda r, i: ('bin', 'in', ('f', c('x')), ('f', r)), ('f', 'R'), ST.ARRAY),
         ('forall v in r: v > 0', lambda r, i: ('q', 'forall', 'v', ('f', r), ('bin', '>', ('var', 'v'), ('lit', 0))), ('f', 'R'), ST.ARRAY),
@@ -299,6 +301,8 @@ def case(spec):
     n = 0
     text = gen.render(spec)
     ok = schema_check(spec)
+    if ok == 'construction-TypeError':
+        return [], 0  # not an accepted predicate at all (C04's matter: e.g. a quantified variable name reused at two types): no host for fault injection
     if ok is not None:
         return [(f'valid-rejected:{ok}@{text}', f'valid «{text}» -> {ok}', {'kind': 'fault', 'spec': spec})], 1
     for path, ref, qv in ref_positions(spec):
@@ -549,7 +553,7 @@ def main() -> int:
     ck.engine('fault-injection', predicates=len(specs), injected=inj, wall_s=round(time.time() - t0, 1))
     ck.sample({'symbolic_template': 'ms[i].r > 0', 'symbolic': ['field name r', 'literal index i', 'fixed length L']})
     ck.sample({'fault_injection_host': gen.render(specs[len(specs) // 2])})
-    ck.bound('SP', '15 templates (every use kind: number/bool/string/message/array/index/range bound/set element/function argument/quantifier domain/nested index); field name unbounded, L in [-1,4], i in [-2,5]')
+    ck.bound('SP', '17 templates (every use kind: number/bool/string/message/array/index/range bound/set element/function argument/quantifier domain/nested index); field name unbounded, L in [-1,4], i in [-2,5]')
     ck.bound('fault injection', f'{inj} single-fault texts over {len(specs)} well-typed predicates of the C04 generator; faults: unknown field at any depth, field/array confusion (both ways), literal index past the end')
     ck.bound('integer tokens', 'all values of each bit width (bit-vector theory): complete')
     ck.coverage['evaluations'] = inj + paths
